@@ -59,9 +59,13 @@ SPEC_FUNS = {
     'mulmod': (3, 'x0 * x1 % x2'),
     'powmod': (3, 'x0 ^ x1 % x2'),
     'gcd': (2, 'Nat.gcd x0 x1'),
+    'isqrt': (1, 'Nat.sqrt x0'),
+    'pow': (2, 'x0 ^ x1'),
 }
 SPEC_PREDS = {
     'issquare': (1, '∃ k : Nat, k * k = x0'),
+    'powfits': (2, 'x0 ^ x1 < W'),
+    'poweq': (5, 'x0 * x1 ^ x2 = x3 ^ x4'),
 }
 
 
@@ -149,6 +153,7 @@ class Lemma:
 LEAN_HEADER = '''import Mathlib.Tactic
 import Mathlib.Data.Nat.GCD.Basic
 import Mathlib.Data.Nat.ModEq
+import Mathlib.Data.Nat.Sqrt
 set_option linter.unusedVariables false
 set_option maxHeartbeats 1000000
 
